@@ -114,6 +114,44 @@ struct World<'a> {
     root_s: String,
     last: Listing, // the listing the model has seen last
     names: Names,  // what the REAL registry resolves (ToolRegistry::verif_names), read at run time
+    frozen: bool,  // the file system's clock does not advance during this history (see freeze_tree)
+}
+
+/// "regardless of what happened to the workspace in between": a history on a file system whose timestamps carry no
+/// information - every edit falls into one tick of a coarse clock (1 s / 2 s granularity, kernels without multigrain
+/// timestamps), or the tools that made the edits put the old times back (cp -p, rsync -t, tar x, touch -r).  After
+/// every operation every workspace file gets the same modification / access time.
+const FROZEN_SECS: u64 = 1_600_000_000;
+fn set_times(p: &std::path::Path, t: std::time::SystemTime) {
+    if let Ok(f) = std::fs::OpenOptions::new().write(true).open(p) {
+        let _ = f.set_times(std::fs::FileTimes::new().set_accessed(t).set_modified(t));
+    }
+}
+fn freeze_tree(root: &std::path::Path) {
+    let t = std::time::UNIX_EPOCH + std::time::Duration::from_secs(FROZEN_SECS);
+    for (c, n) in ws_listing(root) {
+        if let Node::File(_) = n {
+            set_times(&comps_path(root, &c), t);
+        }
+    }
+}
+/// other bytes of the same length (a config value changed from 3 to 5)
+fn same_len_other(b: &[u8], salt: u64) -> Vec<u8> {
+    let mut v = b.to_vec();
+    let mut changed = false;
+    for x in v.iter_mut().rev() {
+        if x.is_ascii_digit() {
+            *x = b'0' + ((*x - b'0') as u64 + 1 + salt % 8) as u8 % 10;
+            changed = true;
+            break;
+        }
+    }
+    if !changed {
+        if let Some(x) = v.iter_mut().rev().find(|x| **x != b'\n') {
+            *x = if *x == b'#' { b'%' } else { b'#' };
+        }
+    }
+    v
 }
 
 /// every name the real registry resolves: registered names and (alias -> target), as ToolRegistry::get does it
@@ -375,6 +413,28 @@ impl<'a> World<'a> {
                     "delete" => {
                         let _ = std::fs::remove_file(&p);
                     }
+                    // an edit that leaves the metadata a cache could key on as they were: same length, same modification
+                    // time; in place (same inode) or by replacement (`same_meta_replace`: temp file + rename, as cp -p does)
+                    "same_meta" | "same_meta_replace" => {
+                        if let (Ok(old), Ok(meta)) = (std::fs::read(&p), std::fs::metadata(&p)) {
+                            if meta.is_file() && !old.is_empty() {
+                                let new = same_len_other(&old, op["salt"].as_u64().unwrap_or(0));
+                                if op["how"] == "same_meta" {
+                                    if let Ok(mut f) = std::fs::OpenOptions::new().write(true).open(&p) {
+                                        use std::io::Write;
+                                        let _ = f.write_all(&new);
+                                    }
+                                } else {
+                                    let t = p.with_file_name(".same-meta-replace");
+                                    let _ = std::fs::write(&t, &new);
+                                    let _ = std::fs::rename(&t, &p);
+                                }
+                                if let Ok(m) = meta.modified() {
+                                    set_times(&p, m);
+                                }
+                            }
+                        }
+                    }
                     "mkdir" => {
                         let _ = std::fs::create_dir_all(&p);
                     }
@@ -569,6 +629,9 @@ impl<'a> World<'a> {
         }
         let all_after = self.sbx.snapshot();
         self.outside_check(run, kind, &all_before, &all_after);
+        if self.frozen {
+            freeze_tree(&self.sbx.root);
+        }
         run.done.push(op.clone());
     }
 }
@@ -857,13 +920,16 @@ fn gen_op(r: &mut Rng, root: &std::path::Path, n_cks: usize, step: u64, names: &
     }
     if k < 8 {
         let p = *r.pick(&FILES[..]);
-        let how = *r.pick(&["write", "write", "write", "delete", "delete", "mkdir", "to_dir", "to_file", "to_file", "to_file", "rmtree"]);
+        let how = *r.pick(&["write", "write", "write", "delete", "delete", "mkdir", "to_dir", "to_file", "to_file", "to_file", "rmtree", "same_meta", "same_meta", "same_meta_replace"]);
         let path = match how {
             "to_file" | "rmtree" => r.pick(&["d", "d/e", "n", "m", "a.txt", "n/o"]).to_string(),
             "mkdir" => r.pick(&["newdir", "d/sub", "m"]).to_string(),
-            "delete" if !files.is_empty() => r.pick(&files).clone(),
+            "delete" | "same_meta" | "same_meta_replace" if !files.is_empty() => r.pick(&files).clone(),
             _ => p.to_string(),
         };
+        if how.starts_with("same_meta") {
+            return json!({"op": "edit", "how": how, "path": path, "salt": step});
+        }
         if how == "write" && r.chance(1, 5) {
             return json!({"op": "edit", "how": how, "path": path, "bytes": odd_content(r)});
         }
@@ -989,6 +1055,65 @@ fn names_cases(names: &Names, seed: u64) -> Vec<Value> {
         ops.push(json!({"op": "tool", "name": name, "args": patch_op(vec![patch_lines(0, "new.txt", "", "", 11)])}));
         ops.push(json!({"op": "rewind", "idx": 0}));
         v.push(json!({"cwd": (k % 3) as u64, "init": listing_json(&init), "ops": ops, "shrink": true, "names_block": i < resolvable}));
+    }
+    v
+}
+
+/// STAMPS block: "all orders of multiple checkpoints" of the SAME file when its metadata say nothing - two or more
+/// checkpoints of one session (Workspace API, ToolRunner, the auto checkpoints of write / apply_patch) with edits in
+/// between that keep the length, on a frozen clock or with the old modification time put back; then rewinds to each
+/// checkpoint in several orders: every checkpoint must give back the bytes of ITS OWN time.
+fn stamp_cases(seed: u64) -> Vec<Value> {
+    let targets = ["a.txt", "d/x.txt", "sp ace.txt", "d/archive.tar.gz", ".hidden", "n/o/p.txt"];
+    let mut v = vec![];
+    for (ti, t) in targets.iter().enumerate() {
+        let mut init = Listing::new();
+        for p in FILES.iter().take(N_EXISTING) {
+            put_file(&mut init, p, &init_content(p));
+        }
+        let c = |k: u64| format!("{t} v{k}\n");
+        let k = ti as u64 + seed;
+        // explicit checkpoints, frozen clock / the old time put back (in place, by replacement)
+        for (mode, create) in [("frozen", "create"), ("frozen", "create_runner"), ("same_meta", "create"), ("same_meta_replace", "create_runner")] {
+            let between = |step: u64| -> Value {
+                if mode == "frozen" {
+                    json!({"op": "edit", "how": "write", "path": t, "content": c(step)})
+                } else {
+                    json!({"op": "edit", "how": mode, "path": t, "salt": step})
+                }
+            };
+            let ops = vec![
+                json!({"op": create, "raws": [t, "b.txt"]}),
+                between(1),
+                json!({"op": create, "raws": [t]}),
+                between(2),
+                json!({"op": create, "raws": [format!("./{t}"), "new.txt"]}),
+                json!({"op": "edit", "how": "write", "path": t, "content": "something else entirely\n"}),
+                json!({"op": "rewind", "idx": 1}),
+                json!({"op": "rewind_runner", "idx": 2}),
+                json!({"op": "rewind", "idx": 0}),
+                json!({"op": "rewind", "idx": 2}),
+                json!({"op": "rewind_runner", "idx": 1}),
+            ];
+            let mut case = json!({"cwd": k % 3, "init": listing_json(&init), "ops": ops, "shrink": true});
+            if mode == "frozen" {
+                case["clock"] = json!("frozen");
+            }
+            v.push(case);
+        }
+        // auto checkpoints: three writes / three patches of the same length in a row, each one undone to its predecessor
+        let w = |step: u64, undo: bool| json!({"op": "tool", "name": "write", "args": write_args((k + step) % 2, t, &c(step)), "undo": undo, "undo_runner": step % 2 == 0});
+        v.push(json!({"cwd": (k + 1) % 3, "clock": "frozen", "init": listing_json(&init), "shrink": true,
+            "ops": [w(1, false), w(2, false), w(3, true), w(4, false), {"op": "rewind", "idx": 1}, {"op": "rewind", "idx": 0}, {"op": "rewind", "idx": 3}]}));
+        let pu = |step: u64, undo: bool| {
+            let lines = vec![format!("*** Update File: {t}"), "@@".to_string(), format!("-{t} v{}", step - 1), format!("+{t} v{step}")];
+            json!({"op": "tool", "name": "apply_patch", "args": patch_op(vec![lines]), "undo": undo, "undo_runner": step % 2 == 1})
+        };
+        v.push(json!({"cwd": (k + 2) % 3, "clock": "frozen", "init": listing_json(&init), "shrink": true,
+            "ops": [pu(1, false), pu(2, false), pu(3, true), {"op": "rewind", "idx": 1}, {"op": "rewind", "idx": 0}, {"op": "rewind", "idx": 2}]}));
+        // a tool write, then the old time put back by hand, then the next tool write
+        v.push(json!({"cwd": k % 3, "init": listing_json(&init), "shrink": true,
+            "ops": [w(1, false), {"op": "edit", "how": "same_meta", "path": t, "salt": 3}, w(5, true), {"op": "edit", "how": "same_meta_replace", "path": t, "salt": 4}, w(6, true), {"op": "rewind", "idx": 1}, {"op": "rewind", "idx": 0}]}));
     }
     v
 }
@@ -1151,7 +1276,10 @@ fn run_case(rt: &tokio::runtime::Runtime, case: &Value) -> Value {
     std::env::set_current_dir(sbx.cwd_dir(cwd)).expect("chdir");
     let root_s = sbx.root.to_string_lossy().to_string();
     let init_listing = ws_listing(&sbx.root);
-    let mut w = World { sbx: &sbx, ws, runner, plain, rt, seq: 0, cks: vec![], root_s: root_s.clone(), last: init_listing.clone(), names: names.clone() };
+    let mut w = World { sbx: &sbx, ws, runner, plain, rt, seq: 0, cks: vec![], root_s: root_s.clone(), last: init_listing.clone(), names: names.clone(), frozen: case["clock"] == "frozen" };
+    if w.frozen {
+        freeze_tree(&sbx.root);
+    }
     let mut run = Run::default();
     if let Some(ops) = case.get("ops").and_then(|o| o.as_array()) {
         for op in ops {
@@ -1170,6 +1298,9 @@ fn run_case(rt: &tokio::runtime::Runtime, case: &Value) -> Value {
     // generated big files stay a specification in the replay
     let mut small_init = init_listing.clone();
     let mut replay = json!({"cwd": cwd, "ops": run.done});
+    if case["clock"] == "frozen" {
+        replay["clock"] = json!("frozen");
+    }
     if let Some(bigs) = case.get("big").and_then(|b| b.as_array()) {
         for b in bigs {
             let c: Comps = b["path"].as_str().unwrap_or("big.bin").split('/').map(|s| s.as_bytes().to_vec()).collect();
@@ -1189,7 +1320,8 @@ fn shrink_case(rt: &tokio::runtime::Runtime, first: &Value) -> Value {
     let init = first["replay"]["init"].clone();
     let cwd = first["replay"]["cwd"].clone();
     let ops: Vec<Value> = first["replay"]["ops"].as_array().cloned().unwrap_or_default();
-    let mk = |cand: &[Value]| json!({"cwd": cwd, "init": init, "ops": cand});
+    let clock = first["replay"]["clock"].clone();
+    let mk = |cand: &[Value]| json!({"cwd": cwd, "init": init, "ops": cand, "clock": clock});
     let small = shrink_vec(ops, |cand| {
         let o = run_case(rt, &mk(cand));
         o["viol"].as_array().map(|v| v.iter().any(|x| x["class"] == class.as_str())).unwrap_or(false)
@@ -1206,13 +1338,13 @@ fn shrink_case(rt: &tokio::runtime::Runtime, first: &Value) -> Value {
     };
     let small_files = if files.len() <= 400 {
         shrink_vec(files.clone(), |cand| {
-            let o = run_case(rt, &json!({"cwd": cwd, "init": mk_init(cand), "ops": small}));
+            let o = run_case(rt, &json!({"cwd": cwd, "init": mk_init(cand), "ops": small, "clock": clock}));
             o["viol"].as_array().map(|v| v.iter().any(|x| x["class"] == class.as_str())).unwrap_or(false)
         })
     } else {
         files.clone()
     };
-    let o = run_case(rt, &json!({"cwd": cwd, "init": mk_init(&small_files), "ops": small}));
+    let o = run_case(rt, &json!({"cwd": cwd, "init": mk_init(&small_files), "ops": small, "clock": clock}));
     if o["viol"].as_array().map(|v| v.iter().any(|x| x["class"] == class.as_str())).unwrap_or(false) {
         return o;
     }
@@ -1271,7 +1403,7 @@ fn main() {
     }
     let verif_root = a.extra.get("verif").cloned().unwrap_or_else(|| env!("CARGO_MANIFEST_DIR").to_string() + "/..");
     let mut res = RunResult::new("C14", &a);
-    res.rule = "cases = (initial workspace, history, process cwd): 3-10 operations drawn from checkpoint create (Workspace API / ToolRunner + real hook; 1-4 paths: existing, missing, nested, './', '//', '/./', trailing '/', absolute inside the root, directories, the root, '..' and outside paths), harness edits (write, delete, mkdir, file replaced by a directory and back, rmtree), write (atomic / plain / append / append without create) and apply_patch (add, update, move, delete) through ToolRunner::run with auto-checkpoints - path arguments and patch headers decorated (leading / trailing blanks incl. unicode blanks and newlines, './', '//', '/./', trailing '/', backslashes, ...), each call followed (3 of 4) by a rewind to its own auto checkpoint judged by effect (whole tree before the call = tree after the rewind) - and rewinds to any earlier checkpoint in any order; stored copies changed / appended to through the write tool or removed (the store lies inside the workspace); workspaces hold siblings of the targets (<stem>.tmp, <name>.tmp, <name>~, .<name>.swp, <name>.tmp-x, <name>.bak, ...); a systematic block runs every single decoration x target x tool; a names block runs EVERY name the real registry resolves (registered names and aliases, ToolRegistry::verif_names) and names close to them through ToolRunner::run with the argument shapes of every file-editing tool, judged by effect (a call that changed a file has an auto checkpoint before it, and the rewind to it restores every file), and the random histories call a handler by any name that reaches it; cwd in {root, sibling, parent}; non-trivial = at least one successful create and one rewind".into();
+    res.rule = "cases = (initial workspace, history, process cwd): 3-10 operations drawn from checkpoint create (Workspace API / ToolRunner + real hook; 1-4 paths: existing, missing, nested, './', '//', '/./', trailing '/', absolute inside the root, directories, the root, '..' and outside paths), harness edits (write, delete, mkdir, file replaced by a directory and back, rmtree), write (atomic / plain / append / append without create) and apply_patch (add, update, move, delete) through ToolRunner::run with auto-checkpoints - path arguments and patch headers decorated (leading / trailing blanks incl. unicode blanks and newlines, './', '//', '/./', trailing '/', backslashes, ...), each call followed (3 of 4) by a rewind to its own auto checkpoint judged by effect (whole tree before the call = tree after the rewind) - and rewinds to any earlier checkpoint in any order; stored copies changed / appended to through the write tool or removed (the store lies inside the workspace); workspaces hold siblings of the targets (<stem>.tmp, <name>.tmp, <name>~, .<name>.swp, <name>.tmp-x, <name>.bak, ...); a systematic block runs every single decoration x target x tool; a names block runs EVERY name the real registry resolves (registered names and aliases, ToolRegistry::verif_names) and names close to them through ToolRunner::run with the argument shapes of every file-editing tool, judged by effect (a call that changed a file has an auto checkpoint before it, and the rewind to it restores every file), and the random histories call a handler by any name that reaches it; a stamps block and a third of the random histories run on a FROZEN clock (every workspace file keeps one modification time) or put the old time back after an edit of the same length (in place / by replacement), with several checkpoints of the same file in one session rewound in several orders; cwd in {root, sibling, parent}; non-trivial = at least one successful create and one rewind".into();
     let n = if a.thorough() { 8000 } else { 400 };
     let mut r = Rng::new(a.seed);
     let mut jobs: Vec<Value> = if let Some(rp) = &a.replay {
@@ -1286,11 +1418,16 @@ fn main() {
         res.bump_by("names-registered", names.tools.len() as u64);
         res.bump_by("names-aliases", names.aliases.len() as u64);
         jobs.extend(names_cases(&names, a.seed));
+        jobs.extend(stamp_cases(a.seed));
         jobs.extend(systematic(a.seed, if a.thorough() { 0 } else { 12 }));
         jobs.extend(big_cases(a.seed, a.thorough()));
         jobs.extend(wide_cases());
         for _ in 0..n {
-            jobs.push(json!({"seed": r.next(), "cwd": r.below(3), "n_ops": r.range(3, 10)}));
+            let mut j = json!({"seed": r.next(), "cwd": r.below(3), "n_ops": r.range(3, 10)});
+            if r.chance(1, 3) {
+                j["clock"] = json!("frozen");
+            }
+            jobs.push(j);
         }
     }
     let obs = run_workers(&a.out, &jobs, 6, 3000);
